@@ -499,6 +499,24 @@ impl CommitPipeline {
 	pub(crate) fn shutdown(&self) {
 		self.shutdown.store(true, Ordering::Release);
 	}
+
+	/// Waits until no commit is in flight any more, and refuses the ones still
+	/// waiting for admission. Call after `shutdown()`.
+	///
+	/// `shutdown()` only turns away commits that have not started. One that is
+	/// already past that check keeps going: it may append to the commit log, be
+	/// applied and acknowledged while - or after - the store flushes its
+	/// memtables and retires the log for the last time, and is then lost although
+	/// it returned Ok. Every admitted commit holds a permit until its batch has
+	/// left the queue, so owning all permits means the pipeline is empty; closing
+	/// the semaphore afterwards makes late arrivals fail with PipelineStall
+	/// instead of waiting for a permit that will never come back.
+	pub(crate) async fn drain(&self) {
+		if let Ok(permits) = self.commit_sem.acquire_many((MAX_CONCURRENT_COMMITS - 1) as u32).await {
+			permits.forget();
+		}
+		self.commit_sem.close();
+	}
 }
 
 impl Drop for CommitPipeline {
